@@ -78,7 +78,12 @@ class FullFrontend(ConstrainedFrontend):
             self._tls.solver = self._solver_backend.solver(timeout=self.timeout, max_memory=self.max_memory)
             self._add_constraints()
         elif self._finalized and len(self._to_add) > 0:
-            if not hasattr(self._solver_backend, "clone_solver") or self._solver_backend.reuse_z3_solver:
+            if (
+                not hasattr(self._solver_backend, "clone_solver")
+                or self._solver_backend.reuse_z3_solver
+                # a cloned Z3 solver forgets which assertions are tracked and no longer reports them in unsat cores
+                or self._track
+            ):
                 # this function may return a cached solver
                 self._tls.solver = self._solver_backend.solver(timeout=self.timeout, max_memory=self.max_memory)
             else:
